@@ -732,3 +732,226 @@ Proof.
   intros V W. destruct s as [|x s]; [left; rewrite app_nil_r; reflexivity|right].
   exists EValue. split; [apply nak_unpack_pack_surplus; [exact V|exact W|discriminate]|reflexivity].
 Qed.
+
+(* ================= C10: every octet string decodes or fails with a documented error ================= *)
+
+Lemma nak_calc_len_err p e : nak_calc_len p = Err e -> e = EValue.
+Proof.
+  unfold nak_calc_len.
+  destruct (cf_large (nk_conf p) =? FILE_NORMAL); [|destruct (cf_large (nk_conf p) =? FILE_LARGE)]; cbn [bind];
+    try (intros H; injection H as <-; reflexivity);
+    rewrite fdir_set_param_len_spec;
+    match goal with |- context [if ?a <=? 65535 then _ else _] => destruct (a <=? 65535) end; cbn [bind];
+    intros H; try discriminate; injection H as <-; reflexivity.
+Qed.
+
+Theorem nak_unpack_total d : wf_bytes d -> ok_or_documented (nak_unpack d).
+Proof.
+  intros W. unfold nak_unpack. destruct nak_empty_ok as (e0 & -> & S0). cbn [bind].
+  pose proof (fdir_unpack_total d W) as TF.
+  destruct (fdir_unpack d) as [f|e] eqn:UF; [|exact TF]. clear TF. cbn [bind].
+  destruct (fdir_unpack_inv d f W UF) as (VF & _ & LHL & LY).
+  pose proof VF as (VH & RT).
+  destruct (hdr_valid_packet_len _ VH) as [RHL RPL].
+  destruct (hdr_verify_length_and_checksum (fd_hdr f) d) as [pl|e] eqn:UV.
+  2:{ destruct (hdr_verify_err (fd_hdr f) d e ltac:(lia) UV) as [-> | ->]; reflexivity. }
+  cbn [bind].
+  destruct (hdr_verify_accept (fd_hdr f) d pl ltac:(lia) UV) as (EPL & LPL & CRC). clear UV.
+  destruct (negb (fd_type f =? DT_NAK)); [reflexivity|].
+  destruct (len d >? pl) eqn:ES; [reflexivity|]. assert (PLD : pl = len d) by lia.
+  assert (FL : flag (cf_large (h_conf (fd_hdr f)))) by apply VH.
+  unfold hdr_large_file, FILE_LARGE, CRC_WITH_CRC.
+  set (c := h_conf (fd_hdr f)) in *. set (w := nak_w c).
+  assert (N : (if negb (cf_large c =? 1) then 4 else 8) = Z.of_nat w).
+  { unfold w. destruct (nak_w_cases _ FL) as [[A B] | [A B]]; rewrite A, B; reflexivity. }
+  cbv zeta. rewrite !N, !Nat2Z.id. pose proof (nak_w_pos c) as Wp. fold w in Wp.
+  set (n := Z.of_nat w) in *. set (hl := fdir_header_len f) in *.
+  set (stop := if cf_crc c =? 1 then pl - 2 else pl).
+  assert (Hn : 0 < n) by (unfold n; lia).
+  assert (Hhl : hl = hdr_header_len (fd_hdr f) + 1) by reflexivity.
+  destruct (hl + 2 * n >? stop) eqn:G; [reflexivity|].
+  assert (STL : stop <= len d) by (unfold stop; destruct (cf_crc c =? 1); lia).
+  assert (L1 : length (slice d hl (hl + n)) = w) by (rewrite slice_length by lia; lia).
+  assert (L2 : length (slice d (hl + n) (hl + n + n)) = w) by (rewrite slice_length by lia; lia).
+  rewrite (struct_unpack_ok w _ L1). cbn [bind]. rewrite (struct_unpack_ok w _ L2). cbn [bind].
+  destruct (hl + n + n <? stop) eqn:G2; [|exact I].
+  destruct (negb ((stop - (hl + n + n)) mod (n * 2) =? 0)) eqn:M; [reflexivity|].
+  assert (M0 : (stop - (hl + n + n)) mod (n * 2) = 0) by lia. clear M.
+  set (k := Z.to_nat ((stop - (hl + n + n)) / (n * 2))).
+  assert (ST : stop = hl + n + n + 2 * n * Z.of_nat k).
+  { unfold k. rewrite Z2Nat.id by (apply Z.div_pos; lia).
+    pose proof (Z.div_mod (stop - (hl + n + n)) (n * 2) ltac:(lia)) as DM. rewrite M0 in DM. lia. }
+  destruct (nak_unpack_segs_spec d w Wp W k (hl + n + n) stop [] (length d + 1)) as (segs & R & _);
+    try assumption; try lia.
+  { assert (Z.of_nat k <= len d) by nia. unfold len in *. lia. }
+  fold n in R. rewrite R. cbn [bind app]. unfold nak_set_segs.
+  destruct (nak_calc_len _) as [p|e] eqn:CL; [exact I|].
+  rewrite (nak_calc_len_err _ _ CL). reflexivity.
+Qed.
+
+(* every strict prefix of a packed NAK PDU is refused with a documented error *)
+Theorem nak_prefix_rejected c q n : nak_valid c q -> (n < length (nak_layout c q))%nat ->
+  exists e, nak_unpack (firstn n (nak_layout c q)) = Err e /\ documented e = true.
+Proof.
+  intros V L. pose proof (nak_pdu_of_wf c q V) as WF0. pose proof WF0 as (OV0 & _).
+  assert (WL : wf_bytes (nak_layout c q)) by (rewrite nak_layout_obj; apply nak_obj_layout_wf; exact OV0).
+  set (LL := nak_layout c q) in *.
+  assert (Wp : wf_bytes (firstn n LL)) by (apply wf_bytes_firstn; exact WL).
+  pose proof (nak_unpack_total _ Wp) as T.
+  destruct (nak_unpack (firstn n LL)) as [p|e] eqn:U; [|exists e; split; [reflexivity|exact T]].
+  exfalso. clear T.
+  destruct (nak_unpack_inv _ p Wp U) as (WF & LAY). pose proof WF as (OV & _).
+  (* the common part decoded from the prefix is the common part of the PDU *)
+  pose proof (nak_fdir_unpack_layout p [] OV ltac:(constructor)) as UF. rewrite app_nil_r, LAY in UF.
+  destruct (fdir_unpack_inv _ _ Wp UF) as (VF & _ & LH & LYF).
+  assert (E : LL = fdir_layout (nk_fd p) ++ skipn (Z.to_nat (fdir_header_len (nk_fd p))) LL).
+  { rewrite LYF. rewrite firstn_firstn.
+    replace (Nat.min (Z.to_nat (fdir_header_len (nk_fd p))) n) with (Z.to_nat (fdir_header_len (nk_fd p))).
+    - symmetry. apply firstn_skipn.
+    - unfold len in LH. rewrite firstn_length in LH. lia. }
+  assert (U2 : fdir_unpack LL = Ok (nk_fd p)).
+  { rewrite E. apply fdir_unpack_layout; [exact VF|]. apply wf_bytes_skipn. exact WL. }
+  pose proof (nak_fdir_unpack_layout (nak_pdu_of c q) [] OV0 ltac:(constructor)) as U3.
+  rewrite app_nil_r, <- nak_layout_obj in U3. fold LL in U3. assert (EF : nk_fd p = nk_fd (nak_pdu_of c q)) by congruence.
+  pose proof (nak_wf_pl p WF) as P1. pose proof (nak_wf_pl _ WF0) as P2.
+  rewrite <- nak_layout_obj in P2. fold LL in P2. rewrite LAY in P1.
+  unfold nk_hdr in P1, P2. rewrite EF in P1. rewrite P2 in P1.
+  unfold len in P1. rewrite firstn_length in P1. lia.
+Qed.
+
+(* ================= C11: lengths track the setters; caller's configuration untouched ================= *)
+
+Inductive nak_op := SetSegs (l : list (Z * Z)) | SetFileFlag (v : Z) | SetStart (v : Z) | SetEnd (v : Z).
+Definition nak_apply_op (p : NakPdu) (o : nak_op) : res NakPdu :=
+  match o with
+  | SetSegs l => nak_set_segs p l
+  | SetFileFlag v => nak_set_file_flag p v
+  | SetStart v => Ok (nak_set_start p v)
+  | SetEnd v => Ok (nak_set_end p v)
+  end.
+Fixpoint nak_apply_ops (p : NakPdu) (ops : list nak_op) : res NakPdu :=
+  match ops with [] => Ok p | o :: r => do p' <- nak_apply_op p o; nak_apply_ops p' r end.
+
+(* the invariant: the PDU is the one a fresh constructor call builds for the caller's
+   configuration with the current file flag and the current values *)
+Definition nak_inv (c : PduConfig) (p : NakPdu) : Prop :=
+  exists lf, flag lf /\ p = nak_pdu_of (conf_set_large c lf) (nak_params p).
+
+Lemma nak_calc_len_flag p p' : nak_calc_len p = Ok p' -> flag (cf_large (nk_conf p)).
+Proof.
+  unfold nak_calc_len, FILE_NORMAL, FILE_LARGE, flag.
+  destruct (cf_large (nk_conf p) =? 0) eqn:A; [lia|]. destruct (cf_large (nk_conf p) =? 1) eqn:B; [lia|].
+  discriminate.
+Qed.
+
+Lemma nak_calc_len_mk c' n0 q' p' :
+  nak_calc_len {| nk_fd := fdir_of c' 8 n0; nk_segs := np_segs q'; nk_start := np_start q'; nk_end := np_end q' |} = Ok p' ->
+  flag (cf_large c') /\ p' = nak_mk c' q'.
+Proof.
+  intros H. pose proof (nak_calc_len_flag _ _ H) as F. split; [exact F|].
+  rewrite nak_calc_len_spec in H by exact F.
+  unfold nk_conf, nk_hdr, nak_params, fdir_of in H. cbn [nk_fd nk_segs nk_start nk_end fd_hdr fd_type h_conf h_type h_meta] in H.
+  match type of H with (if ?a <=? _ then _ else _) = _ => destruct (a <=? 65535) end; [|discriminate].
+  injection H as <-. unfold nak_with_fd, nak_mk, fdir_of. cbn [nk_fd nk_segs nk_start nk_end].
+  destruct q'; reflexivity.
+Qed.
+
+Lemma nak_new_inv c s e l p c' : nak_new c s e l = Ok (p, c') ->
+  c' = c /\ nak_inv c p /\ nak_params p = {| np_start := s; np_end := e; np_segs := l |}.
+Proof.
+  unfold nak_new. destruct (fdir_new _ _ _) as [f|er] eqn:N; [|discriminate]. cbn [bind].
+  destruct (Z.eq_dec (ubf_len (cf_src c)) (ubf_len (cf_dst c))) as [Eq|Ne].
+  2:{ rewrite fdir_new_err in N by (unfold conf_set_dir; cbn [cf_src cf_dst]; lia). discriminate. }
+  rewrite fdir_new_ok in N by (try lia; exact Eq). injection N as <-.
+  destruct (nak_calc_len _) as [p1|er] eqn:CL; [|discriminate]. cbn [bind]. intros X. injection X as <- <-.
+  split; [reflexivity|].
+  destruct (nak_calc_len_mk (conf_set_dir c DIR_TOWARDS_SENDER) 8 {| np_start := 0; np_end := 0; np_segs := l |} p1 CL) as [F E].
+  subst p1. split; [|reflexivity].
+  exists (cf_large c). split; [exact F|].
+  unfold nak_pdu_of, nak_set_end, nak_set_start, nak_mk, nak_params. cbn [nk_fd nk_segs nk_start nk_end np_start np_end np_segs].
+  unfold DIR_TOWARDS_SENDER, conf_set_dir, conf_set_large. cbn [cf_src cf_dst cf_seq cf_mode cf_large cf_crc cf_dir cf_segctrl].
+  reflexivity.
+Qed.
+
+Lemma nak_apply_op_inv c p o p' : nak_inv c p -> nak_apply_op p o = Ok p' -> nak_inv c p'.
+Proof.
+  intros (lf & F & I) H. destruct o as [l|v|v|v]; cbn [nak_apply_op] in H.
+  - (* segment_requests setter *)
+    unfold nak_set_segs, nak_with_segs in H. rewrite I in H. unfold nak_pdu_of in H.
+    cbn [nak_mk nk_fd nk_segs nk_start nk_end] in H.
+    destruct (nak_calc_len_mk _ _ {| np_start := np_start (nak_params p); np_end := np_end (nak_params p); np_segs := l |} p' H) as [_ ->].
+    exists lf. split; [exact F|]. reflexivity.
+  - (* file_flag setter *)
+    unfold nak_set_file_flag, nak_with_fd in H. rewrite I in H. unfold nak_pdu_of in H.
+    cbn [nak_mk nk_fd nk_segs nk_start nk_end fdir_of fd_hdr fd_type hdr_with_conf h_type h_meta h_dlen h_conf] in H.
+    destruct (nak_calc_len_mk (conf_set_large (conf_set_dir (conf_set_large c lf) 1) v) (nak_plen (conf_set_dir (conf_set_large c lf) 1) (nak_params p))
+                {| np_start := np_start (nak_params p); np_end := np_end (nak_params p); np_segs := np_segs (nak_params p) |} p' H) as [F' ->].
+    exists v. split; [exact F'|]. reflexivity.
+  - injection H as <-. exists lf. split; [exact F|]. rewrite I at 1. reflexivity.
+  - injection H as <-. exists lf. split; [exact F|]. rewrite I at 1. reflexivity.
+Qed.
+
+Theorem nak_setters_inv c s e l ops p0 c' p :
+  nak_new c s e l = Ok (p0, c') -> nak_apply_ops p0 ops = Ok p -> c' = c /\ nak_inv c p.
+Proof.
+  intros N A. destruct (nak_new_inv c s e l p0 c' N) as (-> & I & _). split; [reflexivity|].
+  clear N. revert p0 I A. induction ops as [|o r IH]; intros p0 I A; cbn [nak_apply_ops] in A.
+  - injection A as <-. exact I.
+  - destruct (nak_apply_op p0 o) as [p1|er] eqn:E; [|discriminate]. cbn [bind] in A.
+    apply (IH p1); [eapply nak_apply_op_inv; eassumption|exact A].
+Qed.
+
+(* after any setter history: the caller's PduConfig is untouched, and (for final values that are
+   valid parameters) the packed octets are those of a fresh PDU with the final values, the reported
+   length is the packed length, the length field inside is what the format requires *)
+Theorem nak_len_inv c s e l ops p0 c' p :
+  nak_new c s e l = Ok (p0, c') -> nak_apply_ops p0 ops = Ok p ->
+  c' = c /\
+  exists lf, flag lf /\
+    let c2 := conf_set_large c lf in
+    let q := nak_params p in
+    p = nak_pdu_of c2 q /\
+    (nak_valid c2 q ->
+       nak_pack p = Ok (nak_layout c2 q) /\
+       nak_packet_len p = len (nak_layout c2 q) /\
+       nak_new c2 (np_start q) (np_end q) (np_segs q) = Ok (p, c2) /\
+       h_dlen (nk_hdr p) = len (nak_layout c2 q) - hdr_header_len (nk_hdr p)).
+Proof.
+  intros N A. destruct (nak_setters_inv c s e l ops p0 c' p N A) as (-> & lf & F & I).
+  split; [reflexivity|]. exists lf. split; [exact F|]. cbv zeta. split; [exact I|]. intros V.
+  pose proof (nak_pack_layout _ _ V) as P. pose proof (nak_new_ok _ _ V) as NW.
+  destruct (nak_data_field_len _ _ V) as (D1 & D2 & _). cbv zeta in D1, D2.
+  rewrite <- I in P, NW, D1, D2. repeat split; assumption.
+Qed.
+
+(* pack does not change the object (it returns octets only): packing twice gives the same octets *)
+Lemma nak_pack_repeatable p : nak_pack p = nak_pack p.
+Proof. reflexivity. Qed.
+
+(* ================= non-vacuity ================= *)
+
+Definition nak_example_conf : PduConfig :=
+  {| cf_src := {| ubf_val := 258; ubf_len := 2 |}; cf_dst := {| ubf_val := 65535; ubf_len := 2 |};
+     cf_seq := {| ubf_val := 4294967295; ubf_len := 4 |};
+     cf_mode := 1; cf_large := 1; cf_crc := 1; cf_dir := 0; cf_segctrl := 1 |}.
+Definition nak_example_params : NakParams :=
+  {| np_start := 1; np_end := 18446744073709551615; np_segs := [(256, 65536); (4294967296, 4294967297)] |}.
+Example nak_valid_example : nak_valid nak_example_conf nak_example_params.
+Proof.
+  unfold nak_valid, conf_valid, ubf_valid, width_ok, flag, in_width, nak_example_conf, nak_example_params.
+  cbn [cf_src cf_dst cf_seq cf_mode cf_large cf_crc cf_dir cf_segctrl ubf_val ubf_len np_start np_end np_segs].
+  repeat split; try (repeat constructor; cbn; lia); try (vm_compute; intuition congruence).
+Qed.
+Example nak_layout_example :
+  nak_layout nak_example_conf nak_example_params =
+  [47; 0; 51; 147; 1; 2; 255; 255; 255; 255; 255; 255; 8;
+   0; 0; 0; 0; 0; 0; 0; 1; 255; 255; 255; 255; 255; 255; 255; 255;
+   0; 0; 0; 0; 0; 0; 1; 0; 0; 0; 0; 0; 0; 1; 0; 0;
+   0; 0; 0; 1; 0; 0; 0; 0; 0; 0; 0; 1; 0; 0; 0; 1] ++ be_encode 2 (crc16 (firstn 61 (nak_layout nak_example_conf nak_example_params))).
+Proof. vm_compute. reflexivity. Qed.
+Example nak_too_large_example :
+  match nak_new (conf_set_large nak_example_conf 0) 0 4294967296 [] with
+  | Ok (p, _) => Some (nak_pack p)
+  | Err _ => None
+  end = Some (Err EValue).
+Proof. vm_compute. reflexivity. Qed.
